@@ -869,6 +869,20 @@ func doCall(c *wire.Case, call *wire.Call, slots []*progSlot, shared bool) {
 		}
 		ms := v.Run(string(c.Texts[call.Text]))
 		call.Digest = "m:" + digestMatches(ms)
+	case "runfiles":
+		// the shared program over a FILE holding the text (several calls may search the same file at the same time)
+		v := slots[call.Prog].v
+		path := callFiles[call.Text]
+		if v == nil || path == "" {
+			call.Err = "not compiled / no file"
+			call.Digest = "err:nc"
+			return
+		}
+		ms := v.RunFiles([]string{path}, engine.NOTHING, false)
+		for i := range ms {
+			ms[i].Filename = "text"
+		}
+		call.Digest = "m:" + digestMatches(ms)
 	case "run+json":
 		// run the shared program and render the result list both ways
 		v := slots[call.Prog].v
@@ -882,7 +896,37 @@ func doCall(c *wire.Case, call *wire.Call, slots []*progSlot, shared bool) {
 	}
 }
 
+// callFiles: text index -> file holding that text, for calls of kind "runfiles"
+var callFiles = map[int]string{}
+
+func prepareCallFiles(c *wire.Case) func() {
+	callFiles = map[int]string{}
+	need := false
+	for _, cl := range c.Calls {
+		if cl.Kind == "runfiles" {
+			need = true
+		}
+	}
+	if !need {
+		return func() {}
+	}
+	dir, err := os.MkdirTemp("", "vw-cf-*")
+	if err != nil {
+		return func() {}
+	}
+	for _, cl := range c.Calls {
+		if cl.Kind == "runfiles" && callFiles[cl.Text] == "" && cl.Text < len(c.Texts) {
+			p := filepath.Join(dir, fmt.Sprintf("t%d.txt", cl.Text))
+			if os.WriteFile(p, c.Texts[cl.Text], 0o644) == nil {
+				callFiles[cl.Text] = p
+			}
+		}
+	}
+	return func() { os.RemoveAll(dir) }
+}
+
 func opHist(c *wire.Case, res *wire.Result) {
+	defer prepareCallFiles(c)()
 	slots := make([]*progSlot, len(c.Srcs))
 	for i := range slots {
 		slots[i] = &progSlot{}
@@ -913,6 +957,7 @@ func opHist(c *wire.Case, res *wire.Result) {
 }
 
 func opConc(c *wire.Case, res *wire.Result) {
+	defer prepareCallFiles(c)()
 	slots := make([]*progSlot, len(c.Srcs))
 	for i := range slots {
 		slots[i] = &progSlot{}
